@@ -23,7 +23,7 @@ subprocess.run(cmd, cwd=repo, env=env, stdout=subprocess.DEVNULL, stderr=subproc
 passed = set()
 allt = set()
 for tc in ET.parse(junit).getroot().iter("testcase"):
-    name = f"{tc.get('classname')}::{tc.get('name')}"
+    name = f"{tc.get('classname')}::{tc.get('name')}".replace(os.path.realpath(repo), "/repo")
     allt.add(name)
     if not any(ch.tag in ("failure", "error", "skipped") for ch in tc):
         passed.add(name)
